@@ -365,12 +365,14 @@ def gen_candset_inputs(rng, tier, n):
                    M=rng.choice(['JACCARD', 'COSINE', 'DICE']), op=rng.choice(['>=', '>', '=']),
                    score=rng.random() < 0.5, outs=rng.random() < 0.5, cache=rng.random() < 0.5,
                    comp=rng.choice(['>=', '>', '<=', '<', '=', '!=']), tokenized=rng.random() < 0.6,
-                   selfjoin=rng.random() < 0.25)
+                   selfjoin=rng.random() < 0.25, dupidx=rng.random() < 0.3)
 
 
 def _candset(a):
     import pandas as pd
-    idx = [100 + 7 * k for k in range(len(a['pairs']))]
+    n_ = len(a['pairs'])
+    # index labels may repeat (a candidate set concatenated from several filter_tables results)
+    idx = [100 + 7 * (k % max(1, (n_ + 1) // 2)) for k in range(n_)] if a.get('dupidx') else [100 + 7 * k for k in range(n_)]
     return pd.DataFrame({'_id': pd.Series([5 + 2 * k for k in range(len(a['pairs']))], index=idx, dtype=object),
                          'note': pd.Series(['n%d' % k for k in range(len(a['pairs']))], index=idx, dtype=object),
                          'l_id': pd.Series(['l%d' % i for i, _ in a['pairs']], index=idx, dtype=object),
